@@ -231,11 +231,11 @@ def judgeConnLW (evTok : String) (impl : List String) : Judged :=
             match t.toNat? with
             | some id =>
               match via.find? (fun p => p.1 = id) with
-              | some (_, k) => if k ≠ j then fails := "C15:write-through-one-connection-reaches-another-connection" :: fails
+              | some (_, k) => if k ≠ j then fails := "C07:message-reached-a-transport-it-was-not-written-to" :: "C15:write-through-one-connection-reaches-another-connection" :: fails
               | none => fails := "C15:transport-received-a-message-nobody-wrote" :: fails
             | none => fails := "C07:transport-received-malformed-or-partial-message" :: fails
       | _ => pure ()
-    return { model := out, fails := (if fails.isEmpty ∧ implOut ≠ out then [] else fails.reverse.eraseDups.take 2),
+    return { model := out, fails := (if fails.isEmpty ∧ implOut ≠ out then [] else fails.reverse.eraseDups.take 3),
              tags := [s!"lw conns={S.conns.length} events={toks.length} dead={(S.conns.filter (fun c => ¬ c.alive)).length} latewrites={(toks.filter (fun t => t.startsWith "W")).length}"] }
 
 end DV.Drv
